@@ -120,15 +120,18 @@ def check_against_model(model, mat, il, tag):
     flat = [c for g in il for c in g]
     if len(flat) != len(set(flat)) or any(g != sorted(g) for g in il) or [min(g) for g in il] != sorted(min(g) for g in il):
         msgs.append(f"{tag}: index list not disjoint/sorted/ordered: {il}")
-    absM0 = np.abs(model.M0)
-    for a in range(k):
-        for b in range(k):
-            if a != b:
-                want = model.M0[np.ix_(il[a], il[b])].sum()
-                tol = 1e-12 * absM0[np.ix_(il[a], il[b])].sum() + 1e-300
-                if abs(A[a, b] - want) > tol:
-                    msgs.append(f"{tag}: entry ({il[a]},{il[b]}) = {A[a, b]!r}, sum of original entries = {want!r}")
-                    return msgs
+    n0 = len(model.M0)
+    P = np.zeros((n0, k))
+    for col, g in enumerate(il):
+        P[g, col] = 1.0
+    want_all = P.T @ model.M0 @ P                 # sums of the original entries over A x B
+    tol_all = 1e-12 * (P.T @ np.abs(model.M0) @ P) + 1e-300
+    offd = ~np.eye(k, dtype=bool)
+    badm = offd & (np.abs(A - want_all) > tol_all)
+    if badm.any():
+        a, b = np.argwhere(badm)[0]
+        msgs.append(f"{tag}: entry ({il[a]},{il[b]}) = {A[a, b]!r}, sum of original entries = {want_all[a, b]!r}")
+        return msgs
     scale = np.abs(model.M).sum() + np.abs(model.M0).sum() + 1e-300
     if not np.allclose(A, model.M, rtol=0, atol=1e-12 * scale):
         msgs.append(f"{tag}: matrix (incl. diagonal) differs from the lumping model by {np.abs(A - model.M).max():.3g}")
@@ -346,12 +349,17 @@ def _machine_shard(arg):
                 super().__init__()
                 self.h = None
 
-            @initialize(n=st.integers(2, 9), kind=st.sampled_from(["general", "symmetric", "rate", "symrate"]),
+            @initialize(n=st.one_of(st.integers(2, 9), st.integers(2, 9), st.integers(2, 9), st.sampled_from([40, 130, 257, 300])),
+                        kind=st.sampled_from(["general", "symmetric", "rate", "symrate"]),
                         integral=st.booleans(), scale=st.sampled_from([1.0, 1.0, 1e-9, 1e-13, 1e7]),
                         nearly=st.sampled_from([0.0, 0.0, 1e-6, 1e-9]), data=st.data())
             def init(self, n, kind, integral, scale, nearly, data):
                 el = st.integers(-20, 20).map(float) if integral else st.floats(-100, 100, allow_nan=False, width=32)
-                vals = data.draw(st.lists(el, min_size=n * n, max_size=n * n))
+                if n <= 9:
+                    vals = data.draw(st.lists(el, min_size=n * n, max_size=n * n))
+                else:  # large matrices: values from a seeded generator (drawing 90 000 elements one by one is pointless)
+                    rng = np.random.default_rng(data.draw(st.integers(0, 10 ** 6)))
+                    vals = list(np.round(rng.uniform(-20, 20, size=n * n), 0 if integral else 3))
                 self.n = n
                 self.kind = kind + ("" if scale == 1.0 else f"*{scale:g}") + ("" if not nearly else f"~{nearly:g}")
                 self.h = History(make_matrix(kind, n, vals, scale=scale, nearly=nearly))
@@ -366,7 +374,8 @@ def _machine_shard(arg):
             @precondition(lambda self: self.h is not None and self.h.n_rows() > 0)
             @rule(data=st.data())
             def merge(self, data):
-                ids = st.integers(0, self.n - 1)
+                ids = st.integers(0, self.n - 1) if self.n <= 9 else st.one_of(st.integers(0, self.n - 1), st.integers(self.n - 6, self.n - 1),
+                                                                             st.integers(250, 260).filter(lambda v: v < self.n))
                 lists = data.draw(st.lists(st.lists(ids, min_size=1, max_size=4), min_size=1, max_size=3))
                 perm = data.draw(st.lists(st.integers(0, 5), min_size=len(lists), max_size=len(lists) + 2))
                 self._after(self.h.step({"kind": "merge", "lists": lists, "perm": perm,
@@ -375,7 +384,7 @@ def _machine_shard(arg):
             @precondition(lambda self: self.h is not None and self.h.n_rows() > 0)
             @rule(data=st.data())
             def delete(self, data):
-                cells = data.draw(st.lists(st.integers(0, self.n - 1), min_size=0, max_size=3))
+                cells = data.draw(st.lists(st.integers(0, self.n - 1), min_size=0, max_size=3 if self.n <= 9 else 12))
                 self._after(self.h.step({"kind": "delete", "cells": cells, "form": data.draw(st.integers(0, 3))}))
 
             @precondition(lambda self: self.h is not None and self.h.n_rows() == 0)
@@ -529,7 +538,7 @@ def run(tier):
     res = merge_results(results)
     res.violations.sort(key=lambda v: len(str(v["case"])))
     rule = (f"(1) exhaustive: every history of 1..{depth} operations on n=2..{n_exh} cells, operation = any set partition "
-            f"given as join lists or any deletion subset, two matrix kinds; (2) Hypothesis state machine: n in 2..9, "
+            f"given as join lists or any deletion subset, two matrix kinds; (2) Hypothesis state machine: n in 2..9 (occasionally 40, 130, 257, 300), "
             f"merge rules with 1..3 join lists of 1..4 ids (repeats, overlaps, merged and deleted members), delete rules, "
             f"dense and csr in lock-step, up to {steps} steps; (3) SQRA.cut_and_merge on generated energies/adjacency with "
             f"all four limit combinations, limits placed between the occurring values. Non-trivial history = a merge after a "
